@@ -406,7 +406,7 @@ def fixed_rows(fixed_source, encoding, field_name_and_lengths, line_delimiter="a
         return result
 
     if isinstance(fixed_source, str):
-        fixed_file = io.open(fixed_source, "r", encoding=encoding)
+        fixed_file = io.open(fixed_source, "r", newline="", encoding=encoding)
         is_opened = True
     else:
         fixed_file = fixed_source
